@@ -45,6 +45,8 @@ class Tr:
     enum_strs = None           # {"Semantics.X": "value"}: members of a string-valued enumeration
     offline = False            # True while translating the offline visitor (node / args / self.ast accessors allowed)
     interp = False             # True while translating methods of DiscreteTimeInterpreter (exact unit arithmetic)
+    clock = False              # True while translating the sampling bookkeeping of update() / evaluate()
+    normalize_expr = None      # the expression returned by the `normalize` property
 
     def interp_expr(self, e):
         t = src(e)
@@ -54,6 +56,16 @@ class Tr:
             return "(.loc %s)" % q(special[t])
         if isinstance(e, ast.Subscript) and src(e.value) == "self.ast.U":
             return "(.un .unitNs %s)" % self.expr(e.slice)
+        if self.clock:
+            if t == "dataset['time']":
+                return "(.loc \"$time\")"
+            if t == "self.normalize" and self.normalize_expr is not None:
+                return self.expr(self.normalize_expr)              # the property getter, inlined
+            if isinstance(e, ast.Constant) and isinstance(e.value, float) and e.value == int(e.value):
+                return "(.un .frac (.int %d))" % int(e.value)      # a float literal with an integer value (exact numbers)
+            if isinstance(e, ast.Call) and isinstance(e.func, ast.Name) and e.func.id == "float" and len(e.args) == 1 and not e.keywords \
+                    and not self.is_inf(e):
+                return "(.un .frac %s)" % self.expr(e.args[0])     # float(x): numbers are exact in the model
         if isinstance(e, ast.Call) and isinstance(e.func, ast.Name) and len(e.args) == 1 and not e.keywords:
             if e.func.id == "Fraction":
                 return "(.un .frac %s)" % self.expr(e.args[0])
@@ -778,6 +790,318 @@ def generate_units():
     return "\n".join(lines) + "\n"
 
 
+ONLINE_INTERP_FILE = "rtamt/semantics/abstract_discrete_time_online_interpreter.py"
+OFFLINE_INTERP_FILE = "rtamt/semantics/abstract_discrete_time_offline_interpreter.py"
+OUT_CLOCK = os.path.join(os.path.dirname(HERE), "lean", "Rtamt", "Py", "GeneratedClock.lean")
+CLOCK_ATTRS = ("update_counter", "previous_time", "sampling_violation_counter")
+
+
+def _mentions_clock(node):
+    return any(isinstance(x, ast.Attribute) and x.attr in CLOCK_ATTRS + ("normalize", "update_sampling_violation_counter")
+               for x in ast.walk(node))
+
+
+def generate_clock():
+    """The sampling bookkeeping around the operator tree: the tail of online `update(timestamp, dataset)`, online `reset()`
+    and the gap loop of offline `evaluate(dataset)`, with `self.normalize` and `update_sampling_violation_counter` inlined.
+    The statements of these methods that do not touch the bookkeeping (evaluation of the specification) are left out; a
+    statement outside the tail that does touch it makes the generated term `.unsupported`."""
+    base_tree = ast.parse(open(os.path.join(REPO, INTERP_FILE)).read())
+    base = [n for n in base_tree.body if isinstance(n, ast.ClassDef) and n.name == "DiscreteTimeInterpreter"][0]
+    btr = Tr(base)
+    btr.interp = True
+    btr.clock = True
+    btr.parents = {}
+    norm = btr.methods.get("normalize")
+    nexpr = None
+    if norm is not None and len(norm.body) == 1 and isinstance(norm.body[0], ast.Try) and len(norm.body[0].body) == 1 \
+            and isinstance(norm.body[0].body[0], ast.Return):
+        nexpr = norm.body[0].body[0].value
+    elif norm is not None and len(norm.body) == 1 and isinstance(norm.body[0], ast.Return):
+        nexpr = norm.body[0].value
+    btr.normalize_expr = nexpr
+
+    def sub_tr(path, cname):
+        tree = ast.parse(open(os.path.join(REPO, path)).read())
+        cls = [n for n in tree.body if isinstance(n, ast.ClassDef) and n.name == cname][0]
+        tr = Tr(cls)
+        tr.interp = True
+        tr.clock = True
+        tr.normalize_expr = nexpr
+        tr.parents = {"DiscreteTimeInterpreter": btr}
+        return tr
+
+    def body_of(tr, mname, ret_ok):
+        """The statements of `mname` that touch the bookkeeping, provided they are top-level statements (an `if` or a `for`
+        counts as one statement)."""
+        m = tr.methods.get(mname)
+        if m is None:
+            return "(.unsupported %s)" % q("missing method " + mname)
+        stmts = list(m.body)
+        if stmts and isinstance(stmts[-1], ast.Return) and ret_ok and not _mentions_clock(stmts[-1]):
+            stmts.pop()
+        keep = []
+        for st in stmts:
+            if isinstance(st, ast.Expr) and isinstance(st.value, ast.Constant):
+                continue
+            if isinstance(st, ast.Return) or any(isinstance(x, ast.Return) for x in ast.walk(st)):
+                return "(.unsupported %s)" % q("return inside " + mname)
+            if _mentions_clock(st) or (isinstance(st, ast.Assign) and src(st.value) == "dataset['time']" and len(st.targets) == 1
+                                       and isinstance(st.targets[0], ast.Name) and st.targets[0].id == "ts"):
+                keep.append(st)
+        return tr.block(keep, 0)
+
+    on = sub_tr(ONLINE_INTERP_FILE, "AbstractDiscreteTimeOnlineInterpreter")
+    off = sub_tr(OFFLINE_INTERP_FILE, "AbstractDiscreteTimeOfflineInterpreter")
+    lines = ["/- GENERATED by harness/py2lean.py from %s, %s and %s of /repo on every run - do not edit. -/"
+             % (ONLINE_INTERP_FILE, OFFLINE_INTERP_FILE, INTERP_FILE),
+             "import Rtamt.Py.Sem", "", "namespace Rtamt.Py.Gen.Clock", "open Rtamt Rtamt.Py", "",
+             "/-- the sampling bookkeeping of `AbstractDiscreteTimeOnlineInterpreter.update(timestamp, dataset)` -/",
+             "def online_tick : Method :=\n  { params := [\"timestamp\", \"$unit\"], body := %s, ret := none }" % body_of(on, "update", True), "",
+             "/-- the sampling bookkeeping of `AbstractDiscreteTimeOnlineInterpreter.reset()` -/",
+             "def online_reset : Method :=\n  { params := [], body := %s, ret := none }" % body_of(on, "reset", True), "",
+             "/-- the sampling bookkeeping of `AbstractDiscreteTimeOfflineInterpreter.evaluate(dataset)` -/",
+             "def offline_count : Method :=\n  { params := [\"$time\", \"$unit\"], body := %s, ret := none }" % body_of(off, "evaluate", True), "",
+             "end Rtamt.Py.Gen.Clock"]
+    return "\n".join(lines) + "\n"
+
+
+EXPL_LTL = "rtamt/explanation/ltl/discrete_time/explanations.py"
+EXPL_STL = "rtamt/explanation/stl/discrete_time/explanations.py"
+EXPLAINER_LTL = "rtamt/explanation/ltl/discrete_time/explainer.py"
+EXPLAINER_STL = "rtamt/explanation/stl/discrete_time/explainer.py"
+OUT_EXPL = os.path.join(os.path.dirname(HERE), "lean", "Rtamt", "Py", "GeneratedExpl.lean")
+
+
+class _Rename(ast.NodeTransformer):
+    def __init__(self, prefix, keep):
+        self.prefix = prefix
+        self.keep = keep
+
+    def visit_Name(self, node):
+        if node.id in self.keep:
+            return node
+        return ast.copy_location(ast.Name(id=self.prefix + node.id, ctx=node.ctx), node)
+
+
+class ExplTr(Tr):
+    """Module-level functions of explanations.py: loops over interval lists (`[[b, e], ...]`) and signals (lists of floats)."""
+
+    def __init__(self, funcs):
+        self.cls = None
+        self.methods = {}
+        self.funcs = funcs            # name -> FunctionDef (all functions visible in the module)
+        self.offline = True
+
+    def expr(self, e):
+        if isinstance(e, ast.BoolOp):
+            # `a and b` / `a or b` evaluate `b` only when needed
+            vals = [self.cond(v) for v in e.values]
+            out = vals[-1]
+            for v in reversed(vals[:-1]):
+                out = "(.ifExp %s %s (.bin .eq (.int 0) (.int 1)))" % (v, out) if isinstance(e.op, ast.And) \
+                    else "(.ifExp %s (.bin .eq (.int 0) (.int 0)) %s)" % (v, out)
+            return out
+        if isinstance(e, ast.Compare) and len(e.ops) == 2 and all(type(o) in CMPOPS for o in e.ops):
+            a, b, c = e.left, e.comparators[0], e.comparators[1]          # a < b <= c  (b has no side effect)
+            return "(.ifExp (.bin .%s %s %s) (.bin .%s %s %s) (.bin .eq (.int 0) (.int 1)))" % (
+                CMPOPS[type(e.ops[0])], self.expr(a), self.expr(b), CMPOPS[type(e.ops[1])], self.expr(b), self.expr(c))
+        if isinstance(e, ast.UnaryOp) and isinstance(e.op, ast.Not):
+            return "(.un .not %s)" % self.cond(e.operand)
+        if isinstance(e, ast.List) and len(e.elts) == 2:
+            return "(.tuple %s %s)" % (self.expr(e.elts[0]), self.expr(e.elts[1]))           # an interval [b, e]
+        if isinstance(e, ast.Tuple) and len(e.elts) == 2:
+            return "(.tuple %s %s)" % (self.expr(e.elts[0]), self.expr(e.elts[1]))
+        if isinstance(e, ast.Call) and isinstance(e.func, ast.Name) and len(e.args) == 1 and not e.keywords:
+            if e.func.id == "sorted":
+                return "(.sorted %s)" % self.expr(e.args[0])
+            if e.func.id == "int":
+                return "(.un .toInt %s)" % self.expr(e.args[0])
+        if isinstance(e, ast.Subscript) and src(e.slice) == "1" and isinstance(e.value, ast.Subscript) and src(e.value.slice) == "-1":
+            return "(.lastSnd %s)" % self.expr(e.value.value)                                  # out[-1][1]
+        return Tr.expr(self, e)
+
+    def cond(self, e):
+        """`e` in a Boolean position: a bare name is tested for truth (a Boolean or a list)."""
+        t = self.expr(e)
+        return "(.un .truthy %s)" % t if isinstance(e, ast.Name) else t
+
+    def stmt(self, s, depth):
+        if isinstance(s, ast.Assign) and len(s.targets) == 1:
+            t = s.targets[0]
+            if isinstance(t, ast.Tuple) and len(t.elts) == 2 and all(isinstance(x, ast.Name) for x in t.elts):
+                return "(.unpack %s %s %s)" % (q(t.elts[0].id), q(t.elts[1].id), self.expr(s.value))
+            if isinstance(t, ast.Subscript) and src(t.slice) == "1" and isinstance(t.value, ast.Subscript) and src(t.value.slice) == "-1" \
+                    and isinstance(t.value.value, ast.Name):
+                return "(.setLastSnd %s %s)" % (q(t.value.value.id), self.expr(s.value))       # out[-1][1] = e
+            if isinstance(t, ast.Name) and isinstance(s.value, ast.Call) and isinstance(s.value.func, ast.Name) \
+                    and s.value.func.id in self.funcs and not s.value.keywords:
+                return self.inline_fn(self.funcs[s.value.func.id], s.value.args, t.id, depth)
+        if isinstance(s, ast.For) and not s.orelse and isinstance(s.target, ast.Tuple) and len(s.target.elts) == 2 \
+                and all(isinstance(x, ast.Name) for x in s.target.elts) and not (isinstance(s.iter, ast.Call) and src(s.iter.func) == "enumerate"):
+            return "(.forPair %s %s %s %s)" % (q(s.target.elts[0].id), q(s.target.elts[1].id), self.expr(s.iter), self.block(s.body, depth))
+        if isinstance(s, ast.If):
+            return "(.ite %s %s %s)" % (self.cond(s.test), self.block(s.body, depth), self.block(s.orelse, depth))
+        return Tr.stmt(self, s, depth)
+
+    def inline_fn(self, fn, args, target, depth):
+        """`target = fn(args)`: the body of `fn` with its local names prefixed, its `return e` assigned to `target`."""
+        params = [x.arg for x in fn.args.args]
+        a = fn.args
+        if len(params) != len(args) or depth > 2 or a.vararg or a.kwarg or a.kwonlyargs or a.defaults:
+            return "(.unsupported %s)" % q("call of " + fn.name)
+        pre = fn.name + "$"
+        keep = set(self.funcs) | {"sorted", "max", "min", "len", "int", "range", "float", "abs"}
+        body = [_Rename(pre, keep).visit(ast.parse(ast.unparse(st)).body[0]) for st in fn.body]
+        if not body or not isinstance(body[-1], ast.Return) or body[-1].value is None \
+                or any(isinstance(x, ast.Return) for st in body[:-1] for x in ast.walk(st)):
+            return "(.unsupported %s)" % q("return inside " + fn.name)
+        ret = body.pop().value
+        items = ["(.setLoc %s %s)" % (q(pre + p_), self.expr(a_)) for p_, a_ in zip(params, args)]
+        items.append(self.block(body, depth + 1))
+        items.append("(.setLoc %s %s)" % (q(target), self.expr(ret)))
+        return self.seq(items)
+
+    def alias_of(self, fn):
+        """`def f(p1..pn): return g(p1..pn)` -> "g"."""
+        if len(fn.body) == 1 and isinstance(fn.body[0], ast.Return) and isinstance(fn.body[0].value, ast.Call):
+            c = fn.body[0].value
+            if isinstance(c.func, ast.Name) and c.func.id in self.funcs and not c.keywords \
+                    and [src(x) for x in c.args] == [x.arg for x in fn.args.args]:
+                return c.func.id
+        return None
+
+    def function(self, fn):
+        a = fn.args
+        if a.vararg or a.kwarg or a.kwonlyargs or a.defaults:
+            return "{ params := [], body := .unsupported %s, ret := none }" % q("signature of " + fn.name)
+        body = list(fn.body)
+        ret = "none"
+        if body and isinstance(body[-1], ast.Return):
+            r = body.pop()
+            ret = "none" if r.value is None else "(some %s)" % self.expr(r.value)
+        if any(isinstance(x, ast.Return) for st in body for x in ast.walk(st)):
+            btxt = "(.unsupported %s)" % q("return inside " + fn.name)
+        else:
+            btxt = self.block(body, 0)
+        return "{ params := [%s], body := %s, ret := %s }" % (", ".join(q(x.arg) for x in a.args), btxt, ret)
+
+
+def _module_funcs(path):
+    tree = ast.parse(open(os.path.join(REPO, path)).read())
+    return [n for n in tree.body if isinstance(n, ast.FunctionDef)]
+
+
+def explainer_action(m):
+    """The action of one `visitX(self, element, args)` of the explainer, as a term of `Rtamt.Py.ExplAction` - the method has to
+    have one of the few shapes the explainer is written in, anything else is `.unsupported`."""
+    body = [st for st in m.body if not (isinstance(st, ast.Expr) and isinstance(st.value, ast.Constant))]
+    if len(body) == 1 and isinstance(body[0], ast.Raise):
+        return ".raises"
+    lines = [src(st) for st in body]
+    def bad(why):
+        return "(.unsupported %s)" % q(m.name + ": " + why)
+    if [x.arg for x in m.args.args] != ["self", "element", "args"]:
+        return bad("signature")
+    if lines in (["intervals = args[0]", "self.explanations[element.name] = intervals"],
+                 ["intervals = args[0]", "self.explanations[element] = intervals"]):
+        return ".leaf"
+    if len(lines) < 5 or lines[0] != "intervals = args[0]" or lines[1] != "flag = args[1]":
+        return bad("prologue")
+    rest = body[2:]
+    def flag_of(t):
+        return {"flag": "false", "not flag": "true"}.get(t)
+    def call_of(e, nsig, timed_ok):
+        """`f(op_signal.., intervals[, element.begin, element.end])` -> (f, timed)"""
+        if not (isinstance(e, ast.Call) and isinstance(e.func, ast.Name) and not e.keywords):
+            return None
+        a = [src(x) for x in e.args]
+        sig = ["op_signal"] if nsig == 1 else ["op1_signal", "op2_signal"]
+        if a == sig + ["intervals"]:
+            return e.func.id, False
+        if timed_ok and a == sig + ["intervals", "element.begin", "element.end"]:
+            return e.func.id, True
+        return None
+    def choose(st, tgt, nsig):
+        """`tgt = f(..)`  or  `if flag: tgt = f(..) else: tgt = g(..)` -> (sat, unsat, timed)"""
+        if isinstance(st, ast.Assign) and len(st.targets) == 1 and src(st.targets[0]) == tgt:
+            r = call_of(st.value, nsig, True)
+            return None if r is None else (r[0], r[0], r[1])
+        if isinstance(st, ast.If) and src(st.test) == "flag" and len(st.body) == 1 and len(st.orelse) == 1:
+            x, y = choose(st.body[0], tgt, nsig), choose(st.orelse[0], tgt, nsig)
+            if x is None or y is None or x[2] != y[2] or not isinstance(st.body[0], ast.Assign) or not isinstance(st.orelse[0], ast.Assign):
+                return None
+            return (x[0], y[0], x[2])
+        return None
+    rec = "self.explanations[element.name] = intervals"
+    if lines[2] == "op_signal = self.spec.results[element.children[0]]":
+        if len(rest) != 4 or src(rest[2]) != rec:
+            return bad("unary shape")
+        ch = choose(rest[1], "op_intervals", 1)
+        v = rest[3]
+        if ch is None or not (isinstance(v, ast.Expr) and isinstance(v.value, ast.Call) and src(v.value.func) == "self.visit"
+                              and len(v.value.args) == 2 and src(v.value.args[0]) == "element.children[0]"
+                              and isinstance(v.value.args[1], ast.List) and len(v.value.args[1].elts) == 2
+                              and src(v.value.args[1].elts[0]) == "op_intervals" and flag_of(src(v.value.args[1].elts[1])) is not None):
+            return bad("unary shape")
+        return "(.un %s %s %s %s)" % (q(ch[0]), q(ch[1]), "true" if ch[2] else "false", flag_of(src(v.value.args[1].elts[1])))
+    if lines[2] == "op1_signal = self.spec.results[element.children[0]]" and lines[3] == "op2_signal = self.spec.results[element.children[1]]":
+        if len(rest) != 6 or src(rest[3]) != rec:
+            return bad("binary shape")
+        ch = choose(rest[2], "(op1_intervals, op2_intervals)", 2)
+        if ch is None:
+            ch = choose(rest[2], "op1_intervals, op2_intervals", 2)
+        flags = []
+        for k, v in enumerate(rest[4:6]):
+            if not (isinstance(v, ast.Expr) and isinstance(v.value, ast.Call) and src(v.value.func) == "self.visit"
+                    and len(v.value.args) == 2 and src(v.value.args[0]) == "element.children[%d]" % k
+                    and isinstance(v.value.args[1], ast.List) and len(v.value.args[1].elts) == 2
+                    and src(v.value.args[1].elts[0]) == "op%d_intervals" % (k + 1) and flag_of(src(v.value.args[1].elts[1])) is not None):
+                return bad("binary shape")
+            flags.append(flag_of(src(v.value.args[1].elts[1])))
+        if ch is None or ch[2]:
+            return bad("binary shape")
+        return "(.bin %s %s %s %s)" % (q(ch[0]), q(ch[1]), flags[0], flags[1])
+    return bad("shape")
+
+
+def generate_expl():
+    """The explanation functions (`explanations.py`, LTL and STL) as methods of the deep embedding, and the table of actions
+    of the explainer visitor (`explainer.py`): which function computes the intervals of the operands for which polarity, and with
+    which polarity the operands are visited."""
+    lines = ["/- GENERATED by harness/py2lean.py from %s, %s, %s and %s of /repo on every run - do not edit. -/"
+             % (EXPL_LTL, EXPL_STL, EXPLAINER_LTL, EXPLAINER_STL),
+             "import Rtamt.Py.Sem", "import Rtamt.Py.Expl", "", "namespace Rtamt.Py.Gen.Expl", "open Rtamt Rtamt.Py", ""]
+    names = []
+    for path, tag in ((EXPL_LTL, "ltl"), (EXPL_STL, "stl")):
+        fns = _module_funcs(path)
+        tr = ExplTr({f.name: f for f in fns})
+        for f in fns:
+            lines.append("/-- `%s` (%s) -/" % (f.name, path))
+            al = tr.alias_of(f)
+            nm = "%s_%s" % (tag, f.name)
+            if al is not None:
+                lines.append("def %s : Method := %s_%s" % (nm, tag, al))
+            else:
+                lines.append("def %s : Method :=\n  %s" % (nm, tr.function(f)))
+            lines.append("")
+            names.append((tag, f.name, nm))
+    # the functions visible in the explainer modules: the STL explainer imports * from the LTL explainer module (which itself
+    # imports * from the LTL explanations) and then * from the STL explanations, which therefore win
+    lines.append("/-- the functions by the names the LTL explainer sees -/")
+    lines.append("def ltlFuncs : List (String × Method) :=\n  [%s]" % ", ".join("(%s, %s)" % (q(n), nm) for t, n, nm in names if t == "ltl"))
+    lines.append("")
+    for path, tag, cname in ((EXPLAINER_LTL, "ltl", "LTLExplainer"), (EXPLAINER_STL, "stl", "STLExplainer")):
+        tree = ast.parse(open(os.path.join(REPO, path)).read())
+        cls = [n for n in tree.body if isinstance(n, ast.ClassDef) and n.name == cname][0]
+        ms = [n for n in cls.body if isinstance(n, ast.FunctionDef) and n.name.startswith("visit") and n.name not in ("visit", "visitDefault")]
+        lines.append("/-- `%s`: the action of every visit method -/" % cname)
+        lines.append("def %sActions : List (String × ExplAction) :=\n  [%s]" % (tag, ",\n   ".join("(%s, %s)" % (q(m.name), explainer_action(m)) for m in ms)))
+        lines.append("")
+    lines.append("end Rtamt.Py.Gen.Expl")
+    return "\n".join(lines) + "\n"
+
+
 def write_if_changed(path, txt):
     old = open(path).read() if os.path.exists(path) else None
     if txt != old:
@@ -789,6 +1113,7 @@ def write_if_changed(path, txt):
 def main():
     write_if_changed(OUT_OFF, generate_offline())
     write_if_changed(OUT_UNITS, generate_units())
+    write_if_changed(OUT_CLOCK, generate_clock())
     write_if_changed(OUT_HOR, generate_horizon())
     write_if_changed(OUT_PAST, generate_past())
     write_if_changed(OUT_ONCTOR, generate_onctor())
